@@ -238,6 +238,9 @@ func degenerateKeys() []crypto.PublicKey {
 		// private keys that carry nothing either (an API that also accepts the private half must survive these)
 		&ecdsa.PublicKey{Curve: (*elliptic.CurveParams)(nil), X: big.NewInt(1), Y: big.NewInt(1)}, &ecdsa.PublicKey{Curve: noParamsCurve{}, X: big.NewInt(1), Y: big.NewInt(1)},
 		ed25519.PrivateKey(nil), ed25519.PrivateKey{1, 2, 3}, (*ecdsa.PrivateKey)(nil), &ecdsa.PrivateKey{}, (*rsa.PrivateKey)(nil), &rsa.PrivateKey{},
+		// collections of keys (none is a key; several are of types that cannot be compared), empty and otherwise
+		[]crypto.PublicKey(nil), []crypto.PublicKey{}, []crypto.PublicKey{nil}, []any{}, map[string]crypto.PublicKey{}, []byte(nil), []byte{}, struct{}{}, [0]crypto.PublicKey{},
+		func() crypto.PublicKey { return nil },
 	}
 }
 
